@@ -220,6 +220,8 @@ def units():
     for nm, dim, root in c20.KERNELS:
         us.append(Unit(nm, c20.DM + ":" + nm, _k(c20.run_dist(nm, dim, root)), props=["C09"], timeout=300))
     us.append(Unit("TDGLSolver.solve[initial frame]", "tdgl.solver.solver:TDGLSolver.solve", _initial_frame, props=["C09", "C11"], timeout=300))
+    us.append(Unit("TDGLSolver.__init__[function of its arguments]", "tdgl.solver.solver:TDGLSolver.__init__",
+                   lambda m=None: __import__("checks.init_common", fromlist=["x"]).run_init(m, prefixes=("C09.",), narrow=dict(adaptive=True, terminal_psi_unset=False)), props=["C09"], timeout=900))
     us.append(Unit("iteration order", "tdgl (numerical core, syntactic)", run_iteration_order, props=["C09"], timeout=300))
     us.append(Unit("validate_terminal_currents[rng]", "tdgl.solver.solver:validate_terminal_currents", run_rng, props=["C09"], timeout=300))
     us.append(_h.bounded_unit("same bits in fresh processes [bounded]", "tdgl.solve in fresh processes", "C09", _bounded_quick, "recorded_bytes_independent_of_heap_state_hash_seed_thread_count_and_object_history[8 processes, 6 histories]", timeout=900))
